@@ -6,6 +6,7 @@ import (
 	"os"
 	pathpkg "path"
 	"path/filepath"
+	"runtime"
 	"sort"
 	"strings"
 	"syscall"
@@ -634,15 +635,84 @@ func derivedPaths(ns []osNode) []string {
 	return out
 }
 
+// osfsUnprivileged: the handle used by an account that is neither root nor the owner of the nodes in the base — the
+// no-follow operations on a link owned by somebody else are refused by the kernel (EPERM), and whatever the handle then
+// does, the host object the link's raw text names outside the base (which this account does own) stays as it is.
+// Recipe: "osfs-unpriv".
+func osfsUnprivileged(c *Ctx, op string) {
+	c.Begin(op)
+	c.EmitR(op, "skip", "skip")
+	if os.Getuid() != 0 {
+		c.H("osfs-unpriv:skipped")
+		return
+	}
+	top, err := os.MkdirTemp("/tmp", "verif-osfs-unpriv-")
+	if err != nil {
+		return
+	}
+	defer rmrf(top)
+	os.Chmod(top, 0755)
+	base, host := filepath.Join(top, "base"), filepath.Join(top, "host")
+	os.MkdirAll(filepath.Join(base, "d"), 0755)
+	os.MkdirAll(host, 0755)
+	victim := filepath.Join(host, "victim")
+	os.WriteFile(victim, []byte("victim"), 0644)
+	os.Chown(victim, 65534, 65534)
+	os.Chown(host, 65534, 65534)
+	t0 := time.Unix(981173106, 0)
+	os.Chtimes(victim, t0, t0)
+	os.Symlink(victim, filepath.Join(base, "lnk"))                   // owned by root, names the host object by absolute path
+	os.Symlink("../../host/victim", filepath.Join(base, "d", "rel")) // … by a relative one that climbs out
+	afs := osfs.New(fs.MustAbsolutePath(base))
+	results := map[string]string{}
+	func() {
+		runtime.LockOSThread()
+		defer runtime.UnlockOSThread()
+		unix.Setfsgid(65534)
+		unix.Setfsuid(65534)
+		defer unix.Setfsuid(0)
+		defer unix.Setfsgid(0)
+		t1 := time.Unix(1433664000, 0)
+		for _, l := range []string{"lnk", "d/rel"} {
+			rp := fs.MustRelPath(l)
+			func() {
+				defer func() {
+					if r := recover(); r != nil {
+						results[l+":panic"] = fmt.Sprint(r)
+					}
+				}()
+				results[l+":settimesl"] = fsCatOf(afs.SetTimesLNano(rp, t1, t1))
+				results[l+":lchown"] = fsCatOf(afs.Lchown(rp, 65534, 65534))
+			}()
+		}
+	}()
+	for k, v := range results {
+		c.H("osfs-unpriv:" + k + ":" + v)
+		if strings.HasSuffix(k, ":panic") {
+			c.PropFail("osfs-panic", "the handle panicked when used by an unprivileged account: "+v, op)
+		}
+	}
+	if st, e := os.Stat(victim); e != nil || !st.ModTime().Equal(t0) {
+		c.PropFail("osfs-escape", fmt.Sprintf("SetTimesLNano on a link inside the base, called by an account that does not own the link (the kernel answers EPERM), changed the times of the host file the link's text names outside the base (now %v); the call answered %s", st.ModTime().UTC(), results["lnk:settimesl"]), op)
+	}
+	if b, _ := os.ReadFile(victim); string(b) != "victim" {
+		c.PropFail("osfs-escape", "the host file outside the base was modified", op)
+	}
+	c.Distinct(op)
+}
+
 func osfsEngine(c *Ctx) {
 	if ls := replayLines(); ls != nil {
 		for _, op := range ls {
 			if strings.HasPrefix(op, "osfs ") {
 				osfsExec(c, op)
+			} else if strings.HasPrefix(op, "osfs-unpriv") {
+				osfsUnprivileged(c, op)
 			}
 		}
 		return
 	}
+	osfsUnprivileged(c, "osfs-unpriv")
 	nTrees := 40
 	if c.Tier == "thorough" {
 		nTrees = 1200
